@@ -567,8 +567,12 @@ func genSynth(r *Rng, cns int64, steps int, adv bool) Sx {
 // is committed, resubmitted while S is only on disk, then S is resubmitted (now counted from
 // the older P), Cap flushes P alone, and both references to P are removed: S stays cached
 // with parents = 1 and no referrer (it is on disk, so nothing is lost; it is never collected).
-func genLeak(cns int64) Sx {
+func genLeak(cns int64, rr *Rng) Sx {
 	s := &synth{u: newUniverse(), refd: map[int]int{}}
+	n1, n2, s1, s2 := 10, 20, byte(1), byte(2)
+	if rr != nil {
+		n1, n2, s1, s2 = rr.Range(1, 60), rr.Range(1, 60), byte(rr.Intn(120)), byte(120+rr.Intn(120))
+	}
 	mk := func(salt byte, n int) int {
 		var slots [17][]byte
 		slots[16] = bytes.Repeat([]byte{salt}, n)
@@ -578,7 +582,7 @@ func genLeak(cns int64) Sx {
 		s.ext = append(s.ext, nil)
 		return id
 	}
-	S, P := mk(1, 10), mk(2, 20)
+	S, P := mk(s1, n1), mk(s2, n2)
 	s.ext[P-1] = []int{S}
 	r := NewRng(1)
 	s.update(r, []int{S, P}, false)
@@ -596,7 +600,14 @@ func genLeak(cns int64) Sx {
 func gen(r *Rng, tier string, emit func(Sx)) {
 	r = NewRng(r.U64())
 	cns := int64(hashdb.VerifC21CachedNodeSize())
-	emit(genLeak(cns))
+	emit(genLeak(cns, nil))
+	nLeak := 5
+	if tier == "thorough" {
+		nLeak = 60
+	}
+	for i := 0; i < nLeak; i++ {
+		emit(genLeak(cns, r))
+	}
 	nChain, nSynth, nAdv, nBig := 220, 150, 120, 1
 	if tier == "thorough" {
 		nChain, nSynth, nAdv, nBig = 6000, 4000, 3000, 12
@@ -788,6 +799,8 @@ func run(c Sx) Result {
 		return len(b) > 0 && crypto.Keccak256Hash(b) == cd.h(id)
 	}
 	nops, nupd, ncapFlush, ncommit, ngc := 0, 0, 0, 0, 0
+	reins := map[int]bool{} // nodes inserted by an Update while present only on disk
+	var leaks []string
 	// every external edge handed to the implementation must keep the graph acyclic: on a
 	// cycle the real commit/dereference recurse until the Go stack overflows (fatal, uncatchable)
 	xedges := map[int][]int{}
@@ -898,6 +911,11 @@ func run(c Sx) Result {
 						}
 					}
 					csets = append(csets, cset{owner, ns})
+				}
+				for _, id := range gotOrder {
+					if _, cachedBefore := before.nodes[id]; !cachedBefore && before.disk[id] {
+						reins[id] = true
+					}
 				}
 				if len(gotOrder) != len(order) || len(gotRefs) != len(refs) {
 					panic("hxlib: update order")
@@ -1038,12 +1056,17 @@ func run(c Sx) Result {
 			tag["partial-commit"] = true
 		}
 		// ---- direct oracle on the implementation
-		fails = append(fails, oracle(cd, cns, kids, ext, refd, w, float64(sz), guarded, readable, tag, nops)...)
+		fails = append(fails, oracle(cd, cns, kids, ext, refd, w, float64(sz), guarded, readable, tag, nops, reins, &leaks)...)
 		if len(fails) > 0 {
 			break
 		}
 	}
 	res.Obs = obs
+	if len(fails) == 0 && len(leaks) > 0 {
+		// the known open finding is reported only when nothing else failed, so that it can
+		// never mask another violation
+		fails = leaks[:1]
+	}
 	if len(fails) > 0 {
 		if len(fails) > 4 {
 			fails = fails[:4]
@@ -1073,7 +1096,7 @@ func run(c Sx) Result {
 }
 
 func oracle(cd *caseData, cns int, kids [][]int, ext map[int][]int, refd map[int]int, w white, size float64,
-	guarded bool, readable func(int) bool, tag map[string]bool, nops int) (fails []string) {
+	guarded bool, readable func(int) bool, tag map[string]bool, nops int, reins map[int]bool, leaks *[]string) (fails []string) {
 	bad := func(format string, a ...any) {
 		fails = append(fails, fmt.Sprintf("op %d: ", nops)+fmt.Sprintf(format, a...))
 	}
@@ -1209,8 +1232,13 @@ func oracle(cd *caseData, cns int, kids [][]int, ext map[int][]int, refd map[int
 	}
 	for id := range w.nodes {
 		if !top[id] {
-			if w.disk[id] {
+			if w.disk[id] && reins[id] {
+				// mechanism verified: the orphan is on disk and was re-inserted by an Update while only on disk
 				tag["leaked-disk-node"] = true
+				*leaks = append(*leaks, fmt.Sprintf("C21-leak-after-deref: op %d: cached node %d (parents=%d, on disk, re-inserted by an Update while only on disk) "+
+					"has no cached referrer and no referenced root above it: Dereference can never collect it", nops, id, w.nodes[id].Parents))
+			} else if w.disk[id] {
+				bad("cached node %d (on disk, never re-inserted while only on disk) is unreachable from any referenced root or parentless node", id)
 			} else {
 				bad("cached node %d (not on disk) is unreachable from any referenced root or parentless node", id)
 			}
